@@ -33,6 +33,7 @@ CFGS = {
     "asan_big": SAN + ["-fno-sanitize=signed-integer-overflow"],
     "asan_z":   SAN + ["-DUSINGZ"],
     "asan_bigz": SAN + ["-fno-sanitize=signed-integer-overflow", "-DUSINGZ"],
+    "asan_fc":  SAN + ["-fno-sanitize=signed-integer-overflow", "-fsanitize=float-cast-overflow"],
     "tsan":     ["-O1", "-fsanitize=thread"],
     "noexc":    ["-O2", "-fno-exceptions"],
     "portable": ["-O2", "-include", os.path.join(HARNESS, "prelude_portable.h")],
